@@ -167,6 +167,12 @@ class typedlist(list, FieldType):
     def _convert(self, values):
         return [self.__type__(f) if not isinstance(f, self.__type__) else f for f in values]
 
+    def __iadd__(self, values):
+        # ``record.field += [...]`` assigns the extended list back to the field: the added elements are converted (or refused)
+        # like the elements given at construction, instead of slipping in as they are
+        self.extend(self._convert(values))
+        return self
+
     def _pack(self):
         result = []
         for f in self:
